@@ -172,6 +172,13 @@ def gen_score(rng, profile="full", size="small"):
     parts = []
     for p in range(nparts):
         parts.append(gen_part(rng, "P%d" % (p + 1), plan, pickup is not None, profile))
+    if profile == "midi" and nparts >= 2 and parts[0]["tempos"] and rng.random() < 0.35:
+        # the tempo marks stand in another part than the first (e.g. above the piano part of a duo)
+        starts0 = [m["s"] for m in parts[0]["measures"]]
+        if all(tm["t"] in starts0 for tm in parts[0]["tempos"]):
+            j = rng.randrange(1, nparts)
+            parts[j]["tempos"] = [dict(tm, t=parts[j]["measures"][starts0.index(tm["t"])]["s"]) for tm in parts[0]["tempos"]]
+            parts[0]["tempos"] = []
     sc = {"id": None, "parts": parts, "groups": None}
     if nparts >= 2 and profile in ("full", "midi") and rng.random() < 0.4:
         # nested groups: describe structure as nested lists of part indices
@@ -349,7 +356,8 @@ def gen_part(rng, pid, plan, has_pickup, profile):
                     n = {"id": "%sn%d" % (pid.lower(), nid[0]), "kind": kind, "t": s, "e": e, "voice": vn, "staff": st, "sym": dict(sym), "m": m, "g": (m, vn, g) if g is not None else None}
                     if unequal and c > 0 and g is None and rng.random() < unequal:
                         # a chord member with its own (shorter) notated value: half of a binary value stays expressible
-                        half = d / 2
+                        # (a third member may be shorter still: three different lengths struck together)
+                        half = d / 4 if (c > 1 and rng.random() < 0.6 and (d / 4) in SYM and tmap_ok(tmap, off + d / 4)) else d / 2
                         if half in SYM and (off + half) == (off + half) and tmap_ok(tmap, off + half):
                             n["e"] = tmap(off + half)
                             n["sym"] = {"type": SYM[half][0], "dots": SYM[half][1]}
